@@ -83,7 +83,8 @@ simple("C18", "exploration",
 
 simple("C19", "fault_enumeration",
        "failure-mode enumeration (exit != 0 with/without output, killed by signal, not executable, bad exec format, missing interpreter, file removed/re-created "
-       "concurrently, sleeping beyond the deadline directly / as child / ignoring SIGTERM, grandchild holding stdout, empty / non-numeric / 50 MB output) x timeouts "
+       "concurrently, sleeping beyond the deadline directly / as child / ignoring SIGTERM, grandchild holding stdout, empty / non-numeric / 50 MB output, 100-200 KB of stderr "
+       "with and without line breaks, 2048 / 2049 stderr bytes, binary stderr) x timeouts "
        "{0.2, 1} s quick, {0.2, 0.5, 1, 2} s thorough through util.SafeCmdExecution, plus the CmdSensor and CmdFan wrappers (2 s); distinct = (mode, entry point, timeout)",
        ["wall-clock oracle with grey zone: elapsed <= timeout+1.0 s passes, >= timeout+2.5 s is a violation (offending scripts overrun by 4 s), in between is retried and then inconclusive",
         "at most 4 commands in flight per batch"],
@@ -118,7 +119,8 @@ simple("C05", "exploration",
        "systematic: one interference (mode in {none,0,2,3} x pwm in {none, 0..255 step 8 quick / step 1 thorough}) placed at cycle index {1,2,7,40} quick / 1..40 thorough for identity, "
        "sparse README and idempotent quantiser maps, random curve trajectory and algorithm; plus seeded random 120-cycle histories with several interferences incl. interference in the "
        "middle of a cycle (n-th file operation); oracle after the next complete cycle: manual mode, device PWM = map[nearest(request)], counter +1 iff the intruder left a different "
-       "PWM, +0 otherwise; non-trivial = history whose interference was actually applied; distinct by scenario hash",
+       "PWM, +0 otherwise; cmd-fan histories (tool busy for a cycle, unreadable in the cycle after the interference, read-back tool that writes a diagnostic to stderr while the device "
+       "is not what was last set); non-trivial = history whose interference was actually applied; distinct by scenario hash",
        TRUST_L1 + ["device reads back what was written (identity device, or idempotent nearest-level quantiser with the matching PWM map)",
                    "counter exactness is only required for interference while the controller is quiescent (between cycles)"])
 
@@ -186,7 +188,9 @@ simple("C16", "exploration",
        "seeded random scenarios of 2..4 real controllers (hwmon fans on quantising virtual devices with 3/4/6/9 levels = different analysis lengths) starting after random delays "
        "(0..150 ms, fixed waits divided by 50), through RunInitializationSequence() or Run(); every device event has a global sequence number; analysis interval = [first write to "
        "the fan, call storing its RPM curve]; with runFanInitializationInParallel false no two intervals may overlap (logical order); positive control: the same workload with the "
-       "option true must show an overlap; non-trivial = scenario whose positive control overlapped; distinct by (fans, entry point, levels, delays)",
+       "option true must show an overlap; variants: file fans (sweep only), stored curves with unreadable maps, configured maps, option given through the configuration file / "
+       "environment, metrics scrapes, a failing first analysis, a stop request during the first analysis, file fans whose PWM file cannot be read for the first 1..4 reads; "
+       "non-trivial = scenario whose positive control overlapped; distinct by (fans, entry point, levels, delays)",
        TRUST_L1 + ["fixed waits of the controller divided by 50"], batches=(8, 16), timeout=(600, 3000))
 
 
@@ -203,7 +207,8 @@ simple("C17", "exploration",
        "in-process layer: seeded random fake hwmon trees (1..4 chips with distinct names, fan inputs on random channel subsets of 1..6, temperature inputs on random indices incl. "
        "features without an input file, pwm controls on all channels, random enumeration ORDER) read by the real hwmon.GetChips() through the gosensors stand-in; per tree 12 fan "
        "selectors (platform x index | rpmChannel x optional pwmChannel, incl. unknown platform and non-existing index/channel) through UpdateFanConfigFromHwMonControllers and 6 "
-       "sensor selectors through the daemon's InitializeObjects; bound paths compared with a reference resolution; non-trivial = selector of an existing device; distinct by (selector, tree shape, order)",
+       "sensor selectors through the daemon's InitializeObjects; whole configurations of existing devices, and whole configurations with one unbindable hwmon fan entry at a random "
+       "position among bindable fans (start-up must fail naming it); bound paths compared with a reference resolution; non-trivial = selector of an existing device; distinct by (selector, tree shape, order)",
        TRUST_L1 + ["the stand-in numbers features like libsensors (by type, then number; names fanN / tempN)", "platform patterns match exactly one chip"],
        batches=(8, 16))
 
@@ -821,7 +826,8 @@ def c03(p, tier, work, t0, replay):
             "resp. 1..1500 with initial analysis, densely in 1..12), after a delay falling into the start-up wait / first-second delay / ticking, or never (fan stalls at maximum = fatal "
             "control error) x original mode {0,1,2,5} x original PWM {0,77,255} x with/without control mode x restore faults {mode write refused / silently ignored / pinned to 1, PWM "
             "write refused}. Process level: the real daemon (1-3 fans, hwmon and file) receives 1..3 real SIGTERM/SIGINT, the first one in the start-up wait, the analysis, the "
-            "first-second delay or while ticking, the others 0 / 5 / 50 ms / 1 s later, with the same restore faults in the driver; exit status, absence of a Go panic trace and the "
+            "first-second delay or while ticking, the others 0 / 5 / 50 ms / 1 s later, with the same restore faults in the driver; every 8th scenario ends by a fatal control error instead "
+            "(unreadable sensor of a PID curve, or of both PID members of an average / delta function), another 8th has a slow cmd fan and three signals; exit status, absence of a Go panic trace and the "
             "final-state predicate on the device files are checked. non-trivial = stop point reached / signal delivered; distinct by (class, stop point) resp. (phase, mode, faults, #signals)")
     return vcheck.finish(p, tier, "fault_enumeration", merged, rule,
                          TRUST_L1 + ["fixed waits of the controller divided by 50 in-process and by 10 for the daemon (tick rates 3-10 ms)", "SIGKILL / power loss are outside the statement"], t0)
@@ -1356,7 +1362,8 @@ def c15(p, tier, work, t0, replay):
     run_l2(lambda i, r, m: c15_l2_scenario(binary, work, i, r, m), 11 if q else 120, merged, "process-level", 53)
     rule = ("two layers. In-process: seeded random sequences of start / reset / init (3..7 operations) against one real bbolt database for hwmon, file and cmd fans, with / without a "
             "configured pwmMap and minPwm+maxPwm; a start = new fan and controller objects + Run() until the first regulation cycle. Process level: the real daemon is started, "
-            "stopped with SIGTERM and started again, with `fan2go fan --id <id> reset|init` in between, on a hwmon and a file fan. Observed per start from the device event log: distinct "
+            "stopped with SIGTERM and started again, with `fan2go fan --id <id> reset|init` in between (also while the daemon runs, and before its first start), on a hwmon and a file fan; "
+            "after a reset the hwmon fan's RPM curve resp. the file fan's PWM map must be measured anew, and `fan init` of the file fan must sweep. Observed per start from the device event log: distinct "
             "PWM values written (a sweep writes 256) and the longest run of consecutive RPM reads (the settle loop of the RPM-curve measurement reads >= 10 in a row). non-trivial = "
             "sequence containing a start of an already characterised fan; distinct by (fan class, operation sequence)")
     return vcheck.finish(p, tier, "exploration", merged, rule,
@@ -1637,9 +1644,11 @@ def c09(p, tier, work, t0, replay):
     rule = ("two layers. In-process: real controller.Run + sensor monitor on a closed loop; single faults = component {sensor read, RPM read, PWM read, PWM write, mode write} x kind "
             "{EIO, EACCES, empty, garbage; cmd: exit 1, garbage} x first hit at operation {1, 2, 12} on that path x duration {1, 6, for good}, for fan backend {hwmon, file, cmd} x sensor "
             "backend {hwmon, file, cmd} x curve {linear, PID, function(linear, PID), function(function)} (seeded sample of 420 in quick, all in thorough) plus seeded random pairs. "
-            "Process level: the real daemon (hwmon + file fan) with one driver fault placed by operation count inside regulation. Oracle: process alive / no Go panic trace, and after "
-            "the window either the curve keeps being evaluated (daemon keeps running) or the fans satisfy the C03 final-state predicate. non-trivial = every injected fault point was "
-            "reached; distinct by (combination, faults)")
+            "Process level: the real daemon (hwmon + file fan, in the PWM-read scenarios also a cmd fan under the PID algorithm) with one fault inside regulation: a driver fault placed by "
+            "operation count, a misbehaving sensor command (hang / exit / garbage / NaN), non-numeric text (nan, inf, garbage, nothing) in the real sensor file, or a read-back tool that "
+            "hangs beyond its time limit. Oracle: process alive / no Go panic trace; after a fault window the temperature goes to the far end of the curve and the fans must follow "
+            "within 400 control cycles (counted from the event log resp. the tool's call log; fewer cycles = inconclusive) unless the daemon has given up; at the end the fans satisfy the "
+            "C03 final-state predicate. non-trivial = every injected fault point was reached; distinct by (combination, faults)")
     return vcheck.finish(p, tier, "fault_enumeration", merged, rule,
                          TRUST_L1 + ["one child process per batch; its death is attributed to the case logged before it ran", "fixed waits of the controller divided by 50 in-process, 10 for the daemon",
                                      "faults are injected into control cycles only, not into the initial analysis (the statement says 'at any control cycle')"], t0)
